@@ -166,8 +166,9 @@ static std::vector<std::string> reg_gen(const GenArgs &ga) {
       static const char *tg[] = {"sse", "sse", "avx", "mmx"};
       const char *t = tg[r.below(4)];
       std::string setname = r.chance(1, 6) ? "sys" : strf("%d", (int)r.below(nsets));
-      static const char *reqs[] = {"base", "base", "base", "opt1", "opt2", "never"};
-      std::string l = strf("op ruleset set=%s target=%s req=%s ops=", setname.c_str(), t, reqs[r.below(6)]);
+      // required flags: CPU feature bits and/or the generic option bits 29..31 (fast-nan, fast-denormal, clean-compile)
+      static const char *reqs[] = {"base", "base", "base", "opt1", "opt2", "never", "hi1", "hi2"};
+      std::string l = strf("op ruleset set=%s target=%s req=%s ops=", setname.c_str(), t, reqs[r.below(8)]);
       if (setname == "sys") {
         // override a few built-in opcodes with the application's own rules
         int n = 1 + (int)r.below(2);
@@ -198,7 +199,8 @@ static std::vector<std::string> reg_gen(const GenArgs &ga) {
         t = it->second[r.below(it->second.size())];
         size = sets[it->first.first][it->first.second].second;
       }
-      std::string l = strf("op prog target=%s drop=%d size=%d insns=", t.c_str(), r.chance(1, 2) ? 0 : (int)r.below(4), size);
+      std::string l = strf("op prog target=%s drop=%d hi=%d size=%d insns=", t.c_str(), r.chance(1, 2) ? 0 : (int)r.below(4),
+                           r.chance(1, 2) ? 0 : (int)r.below(8), size);
       for (int k = 0; k < len; k++) {
         bool ext = nsets > 0 && r.chance(3, 5);
         if (ext) {
@@ -234,7 +236,14 @@ struct MRuleSet {
 };
 struct Witness { std::string spec, target; int result = 0; std::vector<uint8_t> code; std::string asm_text; uint64_t out = 0; std::set<std::string> opnames; };
 
+static unsigned req_flags(const std::string &target, const std::string &req);
+static unsigned req_flags_hi(const std::string &target, const std::string &req) {
+  unsigned base = req_flags(target, "base");
+  if (req == "hi1") return base | (unsigned)ORC_TARGET_FAST_DENORMAL;
+  return base | (unsigned)ORC_TARGET_FAST_NAN | (unsigned)ORC_TARGET_CLEAN_COMPILE;
+}
 static unsigned req_flags(const std::string &target, const std::string &req) {
+  if (req == "hi1" || req == "hi2") return req_flags_hi(target, req);
   if (target == "sse") {
     if (req == "base") return ORC_TARGET_SSE_SSE2;
     if (req == "opt1") return ORC_TARGET_SSE_SSSE3;
@@ -350,9 +359,17 @@ static void reg_run(const std::vector<std::string> &plan, Child &c) {
         s.ops.push_back(o);
       }
       if (s.ops.empty()) continue;
-      s.arr = (OrcStaticOpcode *)calloc(s.ops.size() + 1, sizeof(OrcStaticOpcode));  // lives as long as the process, like a plugin's table
+      // lives as long as the process, like a plugin's table.  Half of the tables are built the way a program
+      // builds one at run time: in memory that is not zeroed, every field assigned explicitly, names written as
+      // C strings (whatever follows the terminating NUL in the 16-byte name field is garbage)
+      bool runtime_built = (sets.size() + s.ops.size()) % 2 == 0;
+      s.arr = (OrcStaticOpcode *)malloc((s.ops.size() + 1) * sizeof(OrcStaticOpcode));
+      memset(s.arr, runtime_built ? 0x5a : 0, (s.ops.size() + 1) * sizeof(OrcStaticOpcode));
+      s.arr[s.ops.size()].name[0] = 0;   // the terminating entry
       for (size_t k = 0; k < s.ops.size(); k++) {
         OrcStaticOpcode &so = s.arr[k];
+        memset(so.dest_size, 0, sizeof so.dest_size);
+        memset(so.src_size, 0, sizeof so.src_size);
         snprintf(so.name, sizeof so.name, "%s", s.ops[k].name.c_str());
         so.flags = 0;
         so.dest_size[0] = s.ops[k].size;
@@ -474,6 +491,12 @@ static void reg_run(const std::vector<std::string> &plan, Child &c) {
       // model: which rule serves each instruction on this target with these flags
       OrcTarget *t = tname == "emu" ? nullptr : orc_target_get_by_name(tname.c_str());
       unsigned flags = t ? (orc_target_get_default_flags(t) & ~drop_mask(tname, (int)kvi(w, "drop", 0))) : 0;
+      if (t) {
+        int hi = (int)kvi(w, "hi", 0);
+        if (hi & 1) flags |= (unsigned)ORC_TARGET_FAST_DENORMAL;
+        if (hi & 2) flags |= (unsigned)ORC_TARGET_FAST_NAN;
+        if (hi & 4) flags |= (unsigned)ORC_TARGET_CLEAN_COMPILE;
+      }
       std::set<int> expect_rules;
       bool expect_native = t != nullptr;
       for (auto &in : insns) {
@@ -576,7 +599,7 @@ static std::vector<std::string> reg_simplify(const std::string &line) {
     if (s != line) out.push_back(s);
   };
   if (w[1] == "prog") {
-    with("n", "4"); with("drop", "0");
+    with("n", "4"); with("drop", "0"); with("hi", "0");
     auto items = split(kv(w, "insns"), ',');
     if (items.size() > 1)
       for (size_t k = 0; k < items.size(); k++) {
